@@ -331,6 +331,18 @@ def shard(prop, tier, seed, shard, nshards):
                             for f in check_case(case, acc):
                                 if len(acc.failures) < 30:
                                     acc.failures.append(f)
+                    # the progress displays of run(): the default bar and one bar per simulator ('individual');
+                    # their bookkeeping runs in the very finally-clause that has to reach shutdown()
+                    for pp in (True, "individual"):
+                        i += 1
+                        if i % nshards != shard or acc.out_of_time():
+                            continue
+                        scn2 = dict(scn, run=dict(scn.get("run", {}), print_progress=pp, print_progress_default=True))
+                        case = {"scenario": scn2, "schedule": dict(SCHEDULES[0], shutdown="release"),
+                                "faults": [{"sim": sm["sid"], "req": req, "kind": kind}]}
+                        for f in check_case(case, acc):
+                            if len(acc.failures) < 30:
+                                acc.failures.append(f)
     # real processes over TCP (sampled; wall-clock budgets, verdicts re-run once)
     for j, rc in enumerate(real_cases(tier)):
         if j % nshards != shard or acc.out_of_time():
